@@ -111,6 +111,11 @@ def make_cbs(n, m, M, gf, p=1, mode="c09", o3=False):
             if not inn:
                 # no admissible inner interval: the candidate must never be selected
                 acc.concrete("O1.empty_candidate_not_selected", not any(b > s and a < e and (a, b) == rep[i] for a, b in anoms) or rep[i] not in anoms, dict(info, interval=(s, e)), eng=eng)
+                # ... and whatever its scores row reports, it is not a proper interval outside the candidate (seed C09-f:
+                # the row inherited the next candidate's inner interval); a degenerate marker such as (0, 0) is fine
+                a_, b_ = rep[i]
+                acc.concrete("O1.empty_candidate_reports_no_interval_outside_itself", a_ >= b_ or (s <= a_ and b_ <= e),
+                             dict(info, interval=(s, e), reported=rep[i]), eng=eng)
                 continue
             terms = {ab: tsum([avar(s, ab[0], ab[1], e, j) for j in range(p)]) for ab in inn}
             acc.concrete("O1.argmax_admissible", rep[i] in terms, dict(info, interval=(s, e), reported=rep[i]), eng=eng)
@@ -263,6 +268,8 @@ def replay(cx):
         cand = {ab: g(s, ab[0], ab[1], e) for ab in inner_intervals(s, e, m)}
         live.append(bool(cand))
         if not cand:
+            if rep[i][0] < rep[i][1] and not (s <= rep[i][0] and rep[i][1] <= e):
+                bad.append(f"candidate [{s},{e}) has no admissible inner interval but its scores row reports {rep[i]}, an interval outside the candidate")
             continue
         best = max(cand.values())
         if rep[i] not in cand or abs(vals[i] - best) > 1e-9 or abs(cand.get(rep[i], 1e99) - best) > 1e-9:
